@@ -15,6 +15,7 @@ import (
 	"strings"
 	"sync"
 	"sync/atomic"
+	"testing/iotest"
 	"time"
 
 	"github.com/failsafe-go/failsafe-go"
@@ -178,9 +179,9 @@ func (s *ctxSpy) RoundTrip(r *http.Request) (*http.Response, error) {
 
 func genC18(r *rand.Rand) c18Case {
 	cs := c18Case{Entry: vk.Pick(r, "roundtripper", "request"), Method: vk.Pick(r, "GET", "POST", "PUT"),
-		BodyKind: vk.Pick(r, "nil", "nobody", "buffer", "bytesreader", "stringsreader", "file", "plain", "empty"),
+		BodyKind: vk.Pick(r, "nil", "nobody", "buffer", "bytesreader", "stringsreader", "file", "plain", "empty", "trickle", "trickle-len"),
 		BodySize: vk.Pick(r, 0, 1, 4096, 1<<20), ReqCtx: vk.Pick(r, "background", "background", "todo", "cancel", "value", "deadline"),
-		ExecCtx: vk.Pick(r, "none", "none", "cancel", "value"), Stack: vk.Pick(r, "retry", "retry", "retry", "none", "timeout", "retry>timeout", "timeout>retry", "hedge", "retry>hedge", "breaker>retry", "fallback>retry", "retry>breaker", "retryb", "retryb", "timeout>retryb")}
+		ExecCtx: vk.Pick(r, "none", "none", "cancel", "value"), Stack: vk.Pick(r, "retry", "retry", "retry", "none", "timeout", "retry>timeout", "timeout>retry", "hedge", "retry>hedge", "breaker>retry", "fallback>retry", "retry>breaker", "retryb", "retryb", "timeout>retryb", "retryL", "retryP")}
 	if cs.BodyKind == "nil" || cs.BodyKind == "nobody" || cs.BodyKind == "empty" {
 		cs.BodySize = 0
 	} else if cs.BodySize == 0 {
@@ -218,7 +219,7 @@ func retryable(st srvStep) bool {
 var c18Ids atomic.Int64
 
 func checkC18(rep *vk.Report) {
-	rep.Rule = "HTTP: calls through failsafehttp.NewRoundTripper and NewRequest against a loopback server that records every attempt (method, URI, header, body length+SHA-256, arrival time) and follows a per-call script (statuses 200/400/404/418/429/500/501/502/503/504, Retry-After absent/0/1, delayed, streamed, hijack-and-close); body kinds nil/NoBody/*bytes.Buffer/*bytes.Reader/*strings.Reader/file/plain reader/empty x sizes 1B-1MiB; request context background/TODO/cancellable/values/deadline x executor context none/cancellable/values; stacks of retry (failsafehttp.RetryPolicyBuilder), timeout, hedge, breaker, fallback. Oracles: every attempt identical to the original request; attempt count = documented retry rule; gap >= Retry-After seconds on 429/503; returned response is the last attempt's and its body reads to EOF; the context seen by an instrumented inner RoundTripper carries the request context's values and deadline and is done once the caller cancels. A firing hedge with a large body checks overlapping attempts. Attempts ending in net/http's own per-attempt limits (Transport.ResponseHeaderTimeout, Client.Timeout with NewRequest) while the server holds the headers back are retried like any other error (lower bound on the attempts the server sees). gRPC: client and server interceptors driven with fake invoker/handler for all 17 status codes: arguments, reply, error, options passed through unchanged, metadata/values/deadline visible, retries only for Unavailable/DeadlineExceeded/ResourceExhausted. Non-trivial: >=2 attempts, a non-background context, or a body; distinct by (entry, body kind, size class, contexts, stack, script statuses)."
+	rep.Rule = "HTTP: calls through failsafehttp.NewRoundTripper and NewRequest against a loopback server that records every attempt (method, URI, header, body length+SHA-256, arrival time) and follows a per-call script (statuses 200/400/404/418/429/500/501/502/503/504, Retry-After absent/0/1, delayed, streamed, hijack-and-close); body kinds nil/NoBody/*bytes.Buffer/*bytes.Reader/*strings.Reader/file/plain reader/one-byte-per-Read stream with and without a declared ContentLength/empty x sizes 1B-1MiB; request context background/TODO/cancellable/values/deadline x executor context none/cancellable/values; stacks of retry (failsafehttp.RetryPolicyBuilder), timeout, hedge, breaker, fallback. Oracles: every attempt identical to the original request; attempt count = documented retry rule; gap >= Retry-After seconds on 429/503; returned response is the last attempt's and its body reads to EOF; the context seen by an instrumented inner RoundTripper carries the request context's values and deadline and is done once the caller cancels. A firing hedge with a large body checks overlapping attempts. Attempts ending in net/http's own per-attempt limits (Transport.ResponseHeaderTimeout, Client.Timeout with NewRequest) while the server holds the headers back are retried like any other error (lower bound on the attempts the server sees). gRPC: client and server interceptors driven with fake invoker/handler for all 17 status codes: arguments, reply, error, options passed through unchanged, metadata/values/deadline visible, retries only for Unavailable/DeadlineExceeded/ResourceExhausted. Non-trivial: >=2 attempts, a non-background context, or a body; distinct by (entry, body kind, size class, contexts, stack, script statuses)."
 	rep.Assumptions = []string{
 		"A9: Retry-After is only required to be honoured on 429 and 503, integer seconds",
 		"loopback networking works in the sandbox; TLS, x509 and redirect branches of the retry predicate are not driven",
@@ -289,6 +290,11 @@ func c18Body(kind string, size int, idx int) (io.Reader, []byte, func()) {
 		f.Seek(0, 0)
 		return f, data, func() { f.Close(); os.Remove(f.Name()) }
 	}
+	if kind == "trickle" || kind == "trickle-len" {
+		// a stream that delivers its data a few bytes per Read, like a pipe or a network source ("trickle-len": the caller
+		// also declares the length, see c18HTTP)
+		return plainReader{iotest.OneByteReader(bytes.NewReader(data))}, data, func() {}
+	}
 	return plainReader{bytes.NewReader(data)}, data, func() {}
 }
 
@@ -298,6 +304,15 @@ func c18Stack(stack string) []failsafe.Policy[*http.Response] {
 		switch p {
 		case "retry":
 			pols = append(pols, failsafehttp.RetryPolicyBuilder().WithMaxRetries(2).Build())
+		case "retryL": // the stock HTTP retry policy with the user's own listeners added
+			pols = append(pols, failsafehttp.RetryPolicyBuilder().WithMaxRetries(2).
+				OnRetry(func(failsafe.ExecutionEvent[*http.Response]) {}).OnRetryScheduled(func(failsafe.ExecutionScheduledEvent[*http.Response]) {}).
+				OnFailure(func(failsafe.ExecutionEvent[*http.Response]) {}).Build())
+		case "retryP": // a retry policy the user built from the plain builder with the same retry rule
+			pols = append(pols, retrypolicy.Builder[*http.Response]().WithMaxRetries(2).
+				HandleIf(func(r *http.Response, err error) bool {
+					return err != nil || r != nil && (r.StatusCode == 429 || r.StatusCode >= 500 && r.StatusCode != 501)
+				}).WithDelayFunc(failsafehttp.DelayFunc).Build())
 		case "retryb": // with a backoff whose max delay is far below a Retry-After of 1s: the header still wins
 			pols = append(pols, failsafehttp.RetryPolicyBuilder().WithMaxRetries(2).WithBackoff(2*time.Millisecond, 20*time.Millisecond).Build())
 		case "timeout":
@@ -354,6 +369,9 @@ func c18HTTP(rep *vk.Report, idx int, srv *c18Server) {
 	}
 	req.Header.Set("X-Call", id)
 	req.Header.Set("X-Custom", "v-"+id)
+	if cs.BodyKind == "trickle-len" {
+		req.ContentLength = int64(len(data))
+	}
 	ex := failsafe.NewExecutor[*http.Response](c18Stack(cs.Stack)...)
 	switch cs.ExecCtx {
 	case "cancel":
